@@ -42,7 +42,13 @@ impl AsRefSpecImpl<str> for str {
 impl<T: PointeeSized + AsRef<U>, U: PointeeSized> AsRefSpecImpl<U> for &T {
     open spec fn as_ref_spec(&self) -> &U { (**self).as_ref_spec() }
 }
-//@trusted std: AsRef<str> for str / &str returns the string itself (AsRefSpecImpl blocks)
+pub uninterp spec fn string_as_str(s: &String) -> &str;
+pub broadcast axiom fn axiom_string_as_str(s: &String)
+    ensures (#[trigger] string_as_str(s))@ == s@;
+impl AsRefSpecImpl<str> for String {
+    open spec fn as_ref_spec(&self) -> &str { string_as_str(self) }
+}
+//@trusted std: AsRef<str> for str / &str / String returns the string itself (AsRefSpecImpl blocks, axiom_string_as_str)
 pub assume_specification<T: Ord>[ std::cmp::max::<T> ](a: T, b: T) -> (r: T)
     ensures r == a || r == b;
 //@trusted assume_specification std::cmp::max::<usize>
@@ -59,3 +65,9 @@ pub assume_specification<'a>[ <Chars<'a> as Iterator>::count ](c: Chars<'a>) -> 
 pub assume_specification<I: SliceIndex<str>>[ str::get::<I> ](s: &str, i: I) -> (r: Option<&<I as SliceIndex<str>>::Output>)
     ensures match r { None => !i.in_bounds(s), Some(x) => i.in_bounds(s) && i.index_postcondition(s, x) };
 //@trusted assume_specification str::get(i) == SliceIndex::get(i, s) (std definition)
+pub assume_specification<T: PartialEq>[ <[T]>::contains ](s: &[T], x: &T) -> (r: bool)
+    ensures r == (exists|i: int| 0 <= i < s@.len() && #[trigger] s@[i] == *x);
+//@trusted assume_specification <[T]>::contains(x) == some element equals x (std definition; used only at T = char, whose PartialEq is identity)
+pub assume_specification<T: Ord>[ std::cmp::min::<T> ](a: T, b: T) -> (r: T)
+    ensures T::obeys_cmp_spec() ==> r == (if b.cmp_spec(&a) == Ordering::Less { b } else { a });
+//@trusted assume_specification std::cmp::min (std definition: b if b < a else a)
